@@ -225,6 +225,7 @@ fn scenario(lk: LoopKind, kind: BodyKind, input: Vec<i64>, max: usize, limit: i6
         max_execs: 0,
         shards: 1,
         nontrivial: !input.is_empty() && max >= 2,
+        unbounded: false,
     }
 }
 
